@@ -285,7 +285,9 @@ def narrowPhase (pairFn : PairFn α) (tp1 : List (Tet α)) (ep1 : List (Eps α))
     | some (c, f) => pure (⟨i, j, c, f⟩ :: tail)
     | none => pure tail
 
-/-- the broad-phase choice of `find_contact_surface` (body 1 already re-expressed) -/
+/-- the broad-phase choice of `find_contact_surface` (body 1 already re-expressed).
+(Before the repair "overlaps_aabb_tree returned float index arrays when nothing overlaps" an empty
+tree result raised IndexError, see `broadCore_asIs_before_fix`.) -/
 def broadPhase (b1 b2 : Body α) (useAabbTrees : Bool) :
     Except Err (List (Nat × Nat) × Body α × Body α) :=
   if useAabbTrees then do
@@ -431,6 +433,19 @@ def broadCore (v1 : List (V3 α)) (t1 : List (Nat × Nat × Nat × Nat))
     let a1 ← aabbsOf v1 t1
     let a2 ← aabbsOf v2 t2
     pure (broadBrute a1 a2)
+
+/-- the broad phase before the repair of `overlaps_aabb_tree`: `query_overlap_of_other_tree`
+returns `np.array([])` (float64) when nothing overlaps, `np.unique` kept the dtype and
+`tetrahedra_points[broad_tetrahedra1]` raised IndexError -/
+def broadCore_asIs_before_fix (v1 : List (V3 α)) (t1 : List (Nat × Nat × Nat × Nat))
+    (v2 : List (V3 α)) (t2 : List (Nat × Nat × Nat × Nat)) (useAabbTrees : Bool) :
+    Except Err (List (Nat × Nat)) :=
+  if useAabbTrees then do
+    let c1 ← treeOf v1 t1
+    let c2 ← treeOf v2 t2
+    let ps ← broadTree c1 c2
+    if ps.isEmpty then .error .indexOOB else pure ps
+  else broadCore v1 t1 v2 t2 false
 
 /-- cache-free `find_contact_surface` on raw mesh data (body 1 already in the frame of body 2):
 the contact list in the frame of body 2, same evaluation order as the code -/
